@@ -1,12 +1,15 @@
 import Tmv.Gen.Facts
+import Tmv.Model.CommitVerify
 /-! Model of /repo light/verifier.go, light/client.go, light/detector.go, light/store/db/db.go
 (core Lean only).
 
 Abstractions (see DESIGN.md §5 C09):
 * hashes are abstract values (`Hash := Nat`) carried by headers and validator sets; the code only
   ever compares them, so nothing about SHA-256 is used (theorems speak about equal hashes);
-* a commit is the list of validator ids that validly signed *this* header (C07 proves what the
-  commit verifiers compute); `tally` is the power of those signers inside a given validator set;
+* commits and their verification are C07's model (`Tmv.CommitVerify`): a light block carries a
+  `Commit` (slots with flag, address, timestamp, signature token) and `VerifyCommitLight` /
+  `VerifyCommitLightTrusting` are C07's `verifyCommitLight` / `verifyCommitLightTrusting` with the
+  signature predicate `cfg.sigOK` (arbitrary in the theorems);
 * a provider is an arbitrary function of (number of earlier calls, requested height);
 * goroutine rounds (witness cross-check, primary replacement) are functions of the ARRIVAL ORDER of
   the witnesses' replies, given by an arbitrary scheduler `sched`;
@@ -20,15 +23,16 @@ structure ValSet where
   hash : Hash
 deriving Repr, DecidableEq, Inhabited
 
-def sumPow : List (Nat × Nat) → Nat
-  | [] => 0
-  | (_, p) :: r => p + sumPow r
+/-- the validator set in C07's form (in set order): address = the id byte, key = id -/
+def ValSet.validators (v : ValSet) : List CommitVerify.Validator :=
+  v.vals.map fun p => { addr := [UInt8.ofNat p.1], key := p.1, power := (p.2 : Int) }
 
-def ValSet.total (v : ValSet) : Nat := sumPow v.vals
+def chainStr (n : Nat) : String := "chain-" ++ toString n
 
-/-- voting power, inside `v`, of the validators that validly signed -/
-def tally (v : ValSet) (signers : List Nat) : Nat :=
-  sumPow (v.vals.filter fun p => signers.contains p.1)
+deriving instance DecidableEq, Repr for CommitVerify.CommitSig
+deriving instance DecidableEq, Repr for CommitVerify.Commit
+
+instance : Inhabited (CommitVerify.Commit Nat) := ⟨⟨0, 0, CommitVerify.BlockID.zero, []⟩⟩
 
 structure Header where
   chain : Nat
@@ -47,7 +51,7 @@ deriving Repr, DecidableEq, Inhabited
 structure LightBlock where
   hdr : Header
   commitOK : Bool              -- Commit.ValidateBasic ∧ commit.Height = Height ∧ commit.BlockID.Hash = Hash()
-  signers : List Nat
+  commit : CommitVerify.Commit Nat
   vals : ValSet
 deriving Repr, DecidableEq, Inhabited
 
@@ -95,19 +99,22 @@ def verifyNewHeaderAndVals (u t : LightBlock) (now drift : Int) : Bool :=
   (u.time < now + drift) &&
   (u.hdr.valsHash == u.vals.hash)
 
-/-- `VerifyCommitLight` on the block's own validator set -/
-def commitLightOK (b : LightBlock) : Bool :=
-  tally b.vals b.signers > b.vals.total * 2 / 3
+abbrev SigOK := Nat → CommitVerify.SignBytes → Nat → Bool
 
-/-- `VerifyCommitLightTrusting` of `u`'s commit in the trusted set `tv` -/
-def maxInt64 : Nat := 2 ^ 63 - 1
+/-- `untrustedVals.VerifyCommitLight(chainID, commit.BlockID, header.Height, commit)` (C07's model) -/
+def commitLightOK (sigOK : SigOK) (chain : Nat) (b : LightBlock) : Bool :=
+  CommitVerify.verifyCommitLight sigOK b.vals.validators (chainStr chain) b.commit.blockID b.height
+    b.commit == .ok
 
-def commitTrusting (tv : ValSet) (u : LightBlock) (l : Fraction) : Except Err Unit :=
-  if l.den = 0 then .error .commitOther
-  else if l.num > maxInt64 ∨ l.den > maxInt64 then .error .commitOther
-  else if tv.total * l.num > maxInt64 then .error .commitOther        -- safeMul overflow
-  else if tally tv u.signers > tv.total * l.num / l.den then .ok ()
-  else .error .cantBeTrusted
+/-- `trustedVals.VerifyCommitLightTrusting(chainID, commit, trustLevel)` (C07's model) and the
+verifier's switch on the error type -/
+def commitTrusting (sigOK : SigOK) (chain : Nat) (tv : ValSet) (u : LightBlock) (l : Fraction) :
+    Except Err Unit :=
+  match CommitVerify.verifyCommitLightTrusting sigOK tv.validators (chainStr chain) u.commit l.num l.den with
+  | .ok => .ok ()
+  | .notEnough _ _ => .error .cantBeTrusted
+  | .panicFlag | .panicBlockID | .panicTotal | .panicIndex => .error .panic
+  | _ => .error .commitOther
 
 structure Config where
   chain : Nat
@@ -117,22 +124,24 @@ structure Config where
   drift : Int
   pruning : Nat
   fuel : Nat
-deriving Repr, Inhabited
+  sigOK : SigOK
+
+instance : Inhabited Config := ⟨⟨0, 0, false, ⟨1, 3⟩, 0, 0, 0, fun _ _ _ => false⟩⟩
 
 def verifyNonAdjacent (cfg : Config) (t u : LightBlock) (now : Int) : Except Err Unit :=
   if u.height = t.height + 1 then .error .notNonAdjacent
   else if headerExpired t cfg.period now then .error .expired
   else if !verifyNewHeaderAndVals u t now cfg.drift then .error .invalidHeader
-  else match commitTrusting t.vals u cfg.level with
+  else match commitTrusting cfg.sigOK t.hdr.chain t.vals u cfg.level with
     | .error e => .error e
-    | .ok _ => if !commitLightOK u then .error .invalidHeader else .ok ()
+    | .ok _ => if !commitLightOK cfg.sigOK t.hdr.chain u then .error .invalidHeader else .ok ()
 
 def verifyAdjacent (cfg : Config) (t u : LightBlock) (now : Int) : Except Err Unit :=
   if u.height ≠ t.height + 1 then .error .notAdjacent
   else if headerExpired t cfg.period now then .error .expired
   else if !verifyNewHeaderAndVals u t now cfg.drift then .error .invalidHeader
   else if u.hdr.valsHash ≠ t.hdr.nextValsHash then .error .nextValsMismatch
-  else if !commitLightOK u then .error .invalidHeader else .ok ()
+  else if !commitLightOK cfg.sigOK t.hdr.chain u then .error .invalidHeader else .ok ()
 
 def verify (cfg : Config) (t u : LightBlock) (now : Int) : Except Err Unit :=
   if u.height ≠ t.height + 1 then verifyNonAdjacent cfg t u now else verifyAdjacent cfg t u now
@@ -649,9 +658,119 @@ def newClient (cfg : Config) (primary : Prov) (witnesses : List Prov) (sched : L
     | (c1, .ok l) =>
       if !lightBlockBasic l cfg.chain then .error (.msg "basic")
       else if l.hash ≠ optHash then .error (.msg "hash")
-      else if !commitLightOK l then .error (.msg "commit")
+      else if !commitLightOK cfg.sigOK cfg.chain l then .error (.msg "commit")
       else match compareFirstHeaderWithWitnesses c1 l with
         | (_, .error e) => .error e
         | (c2, .ok _) => .ok (updateTrustedLightBlock c2 l)
+
+/-! ### restart, rollback, cleanup, `VerifyHeader` -/
+
+/-- `DeleteLightBlock` -/
+def Store.delete (s : Store) (h : Int) : Store :=
+  { blocks := s.blocks.filter (fun b => b.height != h), size := (s.size + 65535) % 65536 }
+
+/-- `restoreTrustedLightBlock` -/
+def restore (c : Client) : Client :=
+  let last := c.store.lastHeight
+  if last > 0 then
+    match c.store.get last with
+    | some b => { c with latest := some b }
+    | none => c
+  else c
+
+/-- the loop of `cleanupAfter`: walks down from the block BEFORE the latest one and deletes what is
+above `height` — the latest block itself is never deleted -/
+def cleanupAfterLoop (height : Int) : Nat → Store → Int → Store
+  | 0, s, _ => s
+  | f + 1, s, prev =>
+    match s.before prev with
+    | none => s
+    | some h => if h.height ≤ height then s else cleanupAfterLoop height f (s.delete h.height) h.height
+
+def cleanupAfter (c : Client) (height : Int) : Client :=
+  match c.latest with
+  | none => c
+  | some l =>
+    restore { c with store := cleanupAfterLoop height (c.store.blocks.length + 1) c.store l.height,
+                     latest := none }
+
+/-- `Cleanup` -/
+def cleanup (c : Client) : Client := { c with latest := none, store := c.store.prune 0 }
+
+/-- `checkTrustedHeaderUsingOptions` (the confirmation function always agrees) -/
+def checkTrustedHeaderUsingOptions (c : Client) (height : Int) (hash : Hash) : Client × Option Err :=
+  match c.latest with
+  | none => (c, some .panic)
+  | some latest =>
+    let (c1, ph) : Client × Except Err Hash :=
+      if height > latest.height then
+        match lightBlockFromPrimary c latest.height with
+        | (c1, .error e) => (c1, .error e)
+        | (c1, .ok lb) => (c1, .ok lb.hash)
+      else if height = latest.height then (c, .ok hash)
+      else (cleanupAfter c height, .ok hash)
+    match ph with
+    | .error e => (c1, some e)
+    | .ok primaryHash =>
+      match c1.latest with
+      | none => (c1, some .panic)
+      | some l1 => if primaryHash ≠ l1.hash then (cleanup c1, none) else (c1, none)
+
+/-- `initializeWithTrustOptions` -/
+def initializeWithOptions (c : Client) (height : Int) (hash : Hash) : Client × Option Err :=
+  match lightBlockFromPrimary c height with
+  | (c1, .error e) => (c1, some e)
+  | (c1, .ok l) =>
+    if !lightBlockBasic l c1.cfg.chain then (c1, some (.msg "basic"))
+    else if l.hash ≠ hash then (c1, some (.msg "hash"))
+    else if !commitLightOK c1.cfg.sigOK c1.cfg.chain l then (c1, some (.msg "commit"))
+    else match compareFirstHeaderWithWitnesses c1 l with
+      | (c2, .error e) => (c2, some e)
+      | (c2, .ok _) => (updateTrustedLightBlock c2 l, none)
+
+/-- the client object `NewClientFromTrustedStore` builds around the existing store -/
+def clientOn (base : Client) (cfg : Config) (primary : Prov) (witnesses : List Prov)
+    (sched : List Prov → List Nat) : Client :=
+  { cfg := cfg, primary := primary, witnesses := witnesses, calls := base.calls, store := base.store,
+    latest := none, evidence := base.evidence, sched := sched }
+
+/-- `NewClientFromTrustedStore` (`withOptions = false`) / `NewClient` (`withOptions = true`) on the
+store, provider call state and evidence log carried by `base`; `some e` = the constructor failed
+(the store may already have been changed) -/
+def newClientOn (base : Client) (cfg : Config) (primary : Prov) (witnesses : List Prov)
+    (sched : List Prov → List Nat) (withOptions : Bool) (optPeriod optHeight : Int) (optHash : Hash) :
+    Client × Option Err :=
+  if withOptions ∧ (optPeriod ≤ 0 ∨ optHeight ≤ 0) then (base, some (.msg "options"))
+  else if witnesses.isEmpty then (base, some .noWitnesses)
+  else if witnesses.any (fun w => w.chain != cfg.chain) then (base, some (.msg "witness-chain"))
+  else if !validateTrustLevel cfg.level then (base, some (.msg "trust-level"))
+  else
+    let c := restore (clientOn base cfg primary witnesses sched)
+    if !withOptions then (c, none)
+    else
+      let (c1, e1) : Client × Option Err :=
+        if c.latest.isSome then checkTrustedHeaderUsingOptions c optHeight optHash else (c, none)
+      match e1 with
+      | some e => (c1, some e)
+      | none =>
+        let need : Bool := match c1.latest with
+          | none => true
+          | some l => l.height < optHeight
+        if need then initializeWithOptions c1 optHeight optHash else (c1, none)
+
+/-- `VerifyHeader` (the header is given by its hash and height) -/
+def verifyHeader (c : Client) (hash : Hash) (height now : Int) : Client × Except Err Unit :=
+  if height ≤ 0 then (c, .error (.msg "height"))
+  else
+    let last := c.store.lastHeight
+    let stored : Option LightBlock :=
+      if last = -1 then none else if height > last then none else c.store.get height
+    match stored with
+    | some b => (c, if b.hash ≠ hash then .error (.msg "existing") else .ok ())
+    | none =>
+      match lightBlockFromPrimary c height with
+      | (c1, .error e) => (c1, .error e)
+      | (c1, .ok l) =>
+        if l.hash ≠ hash then (c1, .error (.msg "mismatch")) else verifyLightBlock c1 l now
 
 end Tmv.Light
